@@ -252,7 +252,7 @@ def generate(rng, tier):
         out.append(Case(f'ts vk {hx(b"a" * n)} ; vv {hx(b"v" * n)} ; vv {hx(b" " * (n - 1) + b"v") if n else "-"}', H, ('validator', 'length-boundary')))
         for m in (12, 13, 14, 15):
             out.append(Case(f'ts vk {hx(b"a" * n + b"@" + b"b" * m)}', H, ('validator', 'tenant-boundary')))
-    for _ in range(6000 if big else 600):
+    for _ in range(120000 if big else 600):
         pool = [bytes([rng.choice(b'abcd')]) + bytes(rng.choice(b'xy1') for _ in range(rng.randrange(0, 2))) for _ in range(rng.randrange(2, 6))]
         if rng.random() < 0.3:
             pool.append(b't@s')
@@ -281,7 +281,7 @@ def generate(rng, tier):
         tag = 'near-limit' if ops and ops[0].startswith('from') else 'random'
         out.append(Case('ts ' + ' ; '.join(ops), H, ('sequence', tag)))
     # header round trips: hdr then from again
-    for _ in range(3000 if big else 400):
+    for _ in range(60000 if big else 400):
         pool = [b'a', b'b', b'c1', b't@s']
         h = rheader(rng, pool)
         out.append(Case(f'ts from {hx(h)} ; hdr 1', H, ('header', 'parse')))
